@@ -126,8 +126,9 @@ class Prog:
 
 
 class ECrate:
-    def __init__(self, pid, name, extra_support=""):
+    def __init__(self, pid, name, extra_support="", strict=False):
         self.pid, self.name = pid, name
+        self.strict = strict        # strict: program modules carry #![deny(warnings)] and no blanket allow / use lines
         self.dir = os.path.join(BUILD, "e", pid, name)
         self.progs = []
         self.extra_support = extra_support
@@ -162,8 +163,9 @@ unexpected_cfgs = { level = "allow", check-cfg = ['cfg(kani)'] }
         open(os.path.join(self.dir, "src", "support.rs"), "w").write(SUPPORT_RS + self.extra_support)
         self._write_lib()
         for p in self.progs:
-            open(os.path.join(self.dir, "src", p.name + ".rs"), "w").write(
-                "#![allow(unused, non_camel_case_types, non_snake_case, clippy::all)]\nuse crate::support::*;\nuse core::cmp::Ordering;\nuse core::hash::{Hash, Hasher};\n" + p.text)
+            hdr = ("#![deny(warnings)]\n#![allow(non_camel_case_types, non_snake_case)]\n//\n//\n" if self.strict else
+                   "#![allow(unused, non_camel_case_types, non_snake_case, clippy::all)]\nuse crate::support::*;\nuse core::cmp::Ordering;\nuse core::hash::{Hash, Hasher};\n")
+            open(os.path.join(self.dir, "src", p.name + ".rs"), "w").write(hdr + p.text)
 
     def _write_lib(self):
         mods = "\n".join("pub mod %s;" % p.name for p in self.progs if p.name not in self.excluded)
